@@ -23,8 +23,10 @@ import (
 	"net/http"
 	"net/http/httptest"
 	"sort"
+	"strconv"
 	"strings"
 	"sync"
+	"sync/atomic"
 	"testing"
 	"time"
 
@@ -158,6 +160,7 @@ type c12Result struct {
 	FollowUp  int      `json:"follow_up_status"`
 	FollowUpGrants int `json:"follow_up_grants"`
 	Cleared   []bool   `json:"cookie_cleared"`
+	KeysLeft  []string `json:"store_keys_left,omitempty"`
 	Note      string   `json:"note,omitempty"`
 	enabledAt [][]int
 	namesAt   [][]string
@@ -167,7 +170,10 @@ type c12Result struct {
 // behaviour: rotating | norefreshtoken | refresh-fails-idtoken-valid | refresh-fails-idtoken-expired | norefreshtoken-idtoken-expired
 func (u *c12Universe) stale(behaviour string, age time.Duration) (*vfBrowser, string, error) {
 	u.mr.FlushAll()
-	u.w.IdP.Set(func(c *vfIdPCfg) { c.RefreshFails = strings.HasPrefix(behaviour, "refresh-fails") })
+	u.w.IdP.Set(func(c *vfIdPCfg) {
+		c.RefreshFails = strings.HasPrefix(behaviour, "refresh-fails")
+		c.NoRefreshRotation = strings.HasPrefix(behaviour, "nonrotating") // provider whose refresh tokens stay valid (no rotation)
+	})
 	id := vfIdentity{Sub: "u-c12", Email: "c12@example.com", Groups: []string{"g"}, NoRefreshToken: strings.HasPrefix(behaviour, "norefreshtoken")}
 	b := vfNewBrowser("")
 	p := u.p[0]
@@ -200,6 +206,8 @@ func (u *c12Universe) stale(behaviour string, age time.Duration) (*vfBrowser, st
 // beyond the prefix pick() decides (nil = always the first).
 func (u *c12Universe) runSchedule(behaviour string, prefix []int, pick func(nEnabled int) int) *c12Result {
 	res := &c12Result{Behaviour: behaviour, N: u.n, Prefix: prefix}
+	signout := strings.HasSuffix(behaviour, "+signout")
+	behaviour = strings.TrimSuffix(behaviour, "+signout")
 	s := u.s
 	s.mu.Lock()
 	s.enabled = false
@@ -228,7 +236,11 @@ func (u *c12Universe) runSchedule(behaviour string, prefix []int, pick func(nEna
 		wg.Add(1)
 		go func(i int) {
 			defer wg.Done()
-			resps[i] = u.p[i].Do(vfGET("/x", "X-Vf-Id", ids[i]).H("Cookie", cookie))
+			target := "/x"
+			if signout && i == 1 {
+				target = "/oauth2/sign_out?rd=%2Fbye" // replica 1 signs the user out while replica 0 serves a request of the stale session
+			}
+			resps[i] = u.p[i].Do(vfGET(target, "X-Vf-Id", ids[i]).H("Cookie", cookie))
 			s.mark(i, c12Finished)
 		}(i)
 	}
@@ -355,6 +367,18 @@ func (u *c12Universe) runSchedule(behaviour string, prefix []int, pick func(nEna
 		b.Jar.Apply("proxy.test", "/x", r.SetCookies())
 		res.Cleared = append(res.Cleared, cleared)
 	}
+	if signout {
+		// the pre-sign-out cookie replayed after BOTH requests completed, and what is left in the store
+		res.Behaviour = behaviour + "+signout"
+		rp := u.p[0].Do(vfGET("/oauth2/userinfo").H("Cookie", cookie))
+		res.FollowUp = rp.Code
+		for _, k := range u.mr.Keys() {
+			if !strings.HasSuffix(k, ".lock") {
+				res.KeysLeft = append(res.KeysLeft, k)
+			}
+		}
+		return res
+	}
 	// follow-up with the jar after all responses were applied
 	f := b.Get(u.p[0], "/x")
 	res.FollowUp = f.Code
@@ -396,6 +420,15 @@ func c12Judge(run *vfRun, u *c12Universe, r *c12Result, mode string) {
 			rep("c12:no-response", "a request did not complete")
 			return
 		}
+	}
+	if strings.HasSuffix(r.Behaviour, "+signout") {
+		// replica 1 = sign-out. Whatever the interleaving with replica 0's refresh: once a sign-out that answered with the
+		// success redirect has completed (and the other request too), the session must be gone — a refresh that was in
+		// flight must not re-create it.
+		if len(r.Codes) == 2 && r.Codes[1] == 302 && (len(r.KeysLeft) > 0 || r.FollowUp == 200) {
+			rep("c12:session-resurrected-after-concurrent-sign-out", fmt.Sprintf("sign-out answered 302, yet after both requests completed the store still holds %v and the pre-sign-out cookie answers %d on /oauth2/userinfo", r.KeysLeft, r.FollowUp))
+		}
+		return
 	}
 	switch r.Behaviour {
 	case "rotating":
@@ -552,6 +585,13 @@ func TestVerif_C12(t *testing.T) {
 			complete2 = false
 		}
 	}
+	for _, bh := range []string{"rotating+signout", "nonrotating+signout", "norefreshtoken+signout", "refresh-fails-idtoken-valid+signout"} {
+		n, done := c12Explore(run, u2, bh, 5000, seen, &seenMu)
+		run.Count("n2_signout_schedules_total", int64(n))
+		if !done {
+			complete2 = false
+		}
+	}
 	run.Extra("n2_complete", complete2)
 	budget3 := map[string]int{"rotating": run.Env.Pick(300, 100000), "norefreshtoken": run.Env.Pick(60, 20000), "refresh-fails-idtoken-valid": run.Env.Pick(60, 20000),
 		"refresh-fails-idtoken-expired": run.Env.Pick(60, 20000), "norefreshtoken-idtoken-expired": run.Env.Pick(40, 20000)}
@@ -605,6 +645,7 @@ func TestVerif_C12(t *testing.T) {
 
 	// ---- C: sequential ages x behaviours x stores --------------------------------------------------------------
 	c12Sequential(run, t)
+	c12Legacy(run, t)
 
 	run.RaceCheck("c12:data-race", "/pkg/middleware/stored_session", "/pkg/sessions/", "/pkg/apis/sessions/", "/providers/")
 	_ = thorough
@@ -701,6 +742,91 @@ func c12Stress(run *vfRun, us []*c12Universe, rounds int) {
 }
 
 // c12Sequential: one request at a time; ages around the refresh period, provider behaviours, both stores.
+// c12Legacy: a provider WITHOUT refresh support that re-validates through its validation URL (legacy keycloak provider
+// against the rig's IdP: /userinfo answers 200 for a live access token). A stale session is honoured only if the
+// validation endpoint confirms it; any other answer (401, 429, 5xx, reset) means "neither refresh nor validation
+// succeeded": unauthenticated and cookie cleared.
+func c12Legacy(run *vfRun, t *testing.T) {
+	w := vfNewWorld(t)
+	defer w.Close()
+	iss := w.IdP.Issuer
+	for _, store := range []string{"cookie", "redis"} {
+		p, err := w.NewProxy("--provider=keycloak", "--login-url="+iss+"/authorize", "--redeem-url="+iss+"/token", "--profile-url="+iss+"/userinfo", "--validate-url="+iss+"/userinfo",
+			"--session-store-type="+store, "--redis-connection-url="+w.RedisURL(), "--cookie-refresh=1m", "--cookie-expire=2h", "--pass-access-token=true", "--scope=openid")
+		if err != nil {
+			t.Fatalf("legacy provider instance (%s): %v", store, err)
+		}
+		for _, kind := range []string{"200", "401", "403", "429", "500", "502", "503", "reset", "200"} {
+			for _, age := range []time.Duration{50 * time.Second, 2 * time.Minute} {
+				w.IdP.Set(func(c *vfIdPCfg) { c.Hook = nil })
+				id := vfIdentity{Sub: "u-legacy-" + kind, Email: "legacy@example.com", Profile: map[string]interface{}{"sub": "u-legacy", "email": "legacy@example.com", "preferred_username": "legacy"}}
+				b := vfNewBrowser("")
+				if _, _, err := b.Login(p, id, "/"); err != nil {
+					run.Inconclusive("rig: legacy login: " + vfTrunc(err.Error(), 80))
+					continue
+				}
+				req := httptest.NewRequest("GET", "/", nil)
+				req.Header.Set("Cookie", vfCookieHeader(b.Jar.For("proxy.test", "/", false)))
+				s, err := p.P.LoadCookiedSession(req)
+				if err != nil {
+					run.Inconclusive("rig: legacy load")
+					continue
+				}
+				old := time.Now().Add(-age)
+				s.CreatedAt = &old
+				rw := httptest.NewRecorder()
+				if err := p.P.SaveSession(rw, req, s); err != nil {
+					run.Inconclusive("rig: legacy save")
+					continue
+				}
+				b.Jar.Apply("proxy.test", "/", rw.Header().Values("Set-Cookie"))
+				var validations int32
+				if kind != "200" {
+					w.IdP.Set(func(c *vfIdPCfg) {
+						c.Hook = func(ev *vfIdPEvent) *vfIdPReply {
+							if ev.Kind != "userinfo" {
+								return nil
+							}
+							atomic.AddInt32(&validations, 1)
+							if kind == "reset" {
+								return &vfIdPReply{Reset: true}
+							}
+							st, _ := strconv.Atoi(kind)
+							return &vfIdPReply{Status: st, Body: []byte(`{"error":"scripted"}`)}
+						}
+					})
+				}
+				uid := fmt.Sprintf("c12l-%s-%s-%d-%s", store, kind, age/time.Second, vfRandHex(3))
+				r1 := b.Get(p, "/x", "X-Vf-Id", uid)
+				served1 := len(w.Up.FindHit(uid)) > 0
+				left := len(b.Jar.For("proxy.test", "/", false))
+				w.IdP.Set(func(c *vfIdPCfg) { c.Hook = nil })
+				r2 := b.Get(p, "/x", "X-Vf-Id", uid+"-b")
+				served2 := len(w.Up.FindHit(uid+"-b")) > 0
+				stale := age > time.Minute
+				run.Eval(fmt.Sprintf("legacy-validate|%s|validate=%s|stale=%v", store, kind, stale))
+				run.Count("legacy_validation_cases", 1)
+				detail := map[string]interface{}{"flags": p.Flags, "validation_answer": kind, "age_s": age / time.Second, "status": []int{r1.Code, r2.Code}, "served": []bool{served1, served2}, "cookies_left": left}
+				switch {
+				case !stale || kind == "200":
+					if !served1 {
+						run.Violation("c12:revalidated-request-not-served", fmt.Sprintf("legacy provider, store %s, age %v, validation endpoint healthy: request refused (%d)", store, age, r1.Code), detail)
+					}
+				default:
+					if served1 || r1.Code == 200 {
+						run.Violation("c12:stale-session-honoured", fmt.Sprintf("legacy provider, store %s: stale session served (%d) although the validation endpoint answered %s (neither refreshed nor validated)", store, r1.Code, kind), detail)
+					} else if left != 0 {
+						run.Violation("c12:cookie-not-cleared", fmt.Sprintf("legacy provider, store %s: stale session refused after validation answer %s but the browser still holds the session cookie", store, kind), detail)
+					} else if served2 {
+						run.Violation("c12:stale-session-honoured", fmt.Sprintf("legacy provider, store %s: request after the refusal (validation answer %s) was served", store, kind), detail)
+					}
+				}
+			}
+		}
+	}
+	w.IdP.Set(func(c *vfIdPCfg) { c.Hook = nil })
+}
+
 func c12Sequential(run *vfRun, t *testing.T) {
 	w := vfNewWorld(t)
 	defer w.Close()
